@@ -486,6 +486,13 @@ func (m *Machine) freshVar(name string, s Sort) *Term {
 	}
 	ps.vars = append(ps.vars, full)
 	ps.varSorts[full] = s
+	if m.fixed != nil {
+		v := m.fixed[full]
+		if s.K == SBool {
+			return BoolC(v != 0)
+		}
+		return BVC(s.W, v)
+	}
 	return Var(full, s)
 }
 
